@@ -418,6 +418,9 @@ impl<'a> Repr<'a> {
         T: AsRef<[u8]> + AsMut<[u8]> + ?Sized,
     {
         packet.set_transaction_id(self.transaction_id);
+        // Start from a clean flags word: the setters only touch their own bits,
+        // which would leave Z and RCODE as found in the buffer.
+        NetworkEndian::write_u16(&mut packet.buffer.as_mut()[field::FLAGS], 0);
         packet.set_flags(self.flags);
         packet.set_opcode(self.opcode);
         packet.set_question_count(1);
